@@ -67,6 +67,17 @@ Proof.
     destruct He as [<-|[<-|[<-|[]]]]; vm_compute; reflexivity.
 Qed.
 
+(* the holder of lock 0 (H in states 12 and 13, nobody in state 14) is not queued on a lock *)
+Ltac hfree := intros o l0 f Ho Hin; vm_compute in Ho;
+  first [discriminate Ho
+        |injection Ho as <-; destruct l0 as [|[|l0]]; vm_compute in Hin;
+         [intuition congruence|intuition congruence|destruct l0; destruct Hin]].
+
+Example n_holder_free k : 12 <= k <= 14 -> holder_free (NT k) 0.
+Proof.
+  intros Hk. assert (k = 12 \/ k = 13 \/ k = 14) as [->|[->| ->]] by lia; hfree.
+Qed.
+
 (* A (future 6, arrival 2) waits on lock 0 in states 12, 13, 14 *)
 Example n_A_waits : waits_through NT 0 6 2 12 14.
 Proof.
@@ -88,10 +99,11 @@ Example n_no_overtake : forall k, 12 <= k <= 13 -> ~ granted_at NT 0 4 k.
 Proof.
   assert (Hlen : 13 < length nacts) by (vm_compute; lia).
   assert (Hk : forall k, 12 <= k <= 13 -> keyed (NT k) 0) by (intros k Hk; apply n_keyed; lia).
+  assert (Hh : forall k, 12 <= k <= 13 -> holder_free (NT k) 0) by (intros k Hk'; apply n_holder_free; lia).
   assert (Hu : forall k, 12 <= k <= 13 -> In 4 (objs (NT k) 0) ->
                (waiter_prio (NT k) 0 6 < waiter_prio (NT k) 0 4)%Q) by (intros k Hk' _; now apply n_urgency).
   exact (no_overtake false 0%Q [] [LPrio; LPrio] [] 0 nacts nrun_ok nrun_ne 0 6 2%Z 4 12 13
-           Hlen n_A_waits Hk Hu).
+           Hlen n_A_waits Hh Hk Hu).
 Qed.
 
 (* the next hand-over (action 14: C takes the lock and releases it) goes to A, the inheritor, while
@@ -112,10 +124,11 @@ Proof.
   destruct n_B_waits as [W1 W2].
   assert (Hlen : 14 < length nacts) by (vm_compute; lia).
   assert (Hk : keyed (NT 14) 0) by (apply n_keyed; lia).
+  assert (Hh : holder_free (NT 14) 0) by (apply n_holder_free; lia).
   assert (Hq : queued_at (NT 14) 0 6 2).
   { exists (mkE (-5)%Q 2 6). split; [vm_compute; tauto|split; reflexivity]. }
   exact (no_overtake_step false 0%Q [] [LPrio; LPrio] [] 0 nacts nrun_ok nrun_ne 0 4 0%Z 6 2%Z 14
-           Hlen Hk W1 W2 Hq n_grant_A).
+           Hlen Hh Hk W1 W2 Hq n_grant_A).
 Qed.
 
 (* order of service of lock 0: futures 5 (C), 6 (A), 4 (B); order of arrival: 4, 5, 6 *)
@@ -125,4 +138,76 @@ Example n_service_order :
 Proof.
   split; [exact n_grant_C|]. split; [exact n_grant_A|]. split; [|vm_compute; reflexivity].
   grant.
+Qed.
+
+(* ------------------------------------------------------------ why [holder_free] is needed
+   (since the repair of F16).  A waits-for cycle broken by a cancellation:
+     T (task 0, priority -5) holds lock 0 and queues on lock 1 (future 4);
+     O (task 1, priority 5)  holds lock 1 and queues on lock 0 (future 5, arrival 1): it inherits -5
+                             from T, key -5;
+     W (task 2, priority 3)  queues on lock 0 (future 3, arrival 0), key 3.
+   State 9 (after T.cancel()): keyed holds for lock 0 (keys -5 and 3 = effective priorities), but
+   the holder T of lock 0 is queued on lock 1.  Action 9 = one step of T: the `finally` of its
+   acquire(lock 1) leaves lock 1, which stays locked by O, so O re-keys its entry in lock 0 to 5
+   (it no longer inherits from T); T then catches the CancelledError and releases lock 0, which
+   goes to W (key 3 < 5) while O keeps waiting - although O's entry stored in state 9 (key -5) is
+   less than W's.  With the keys of the moment of the hand-over the order is respected; it is the
+   comparison with the state BEFORE the action that needs the hypothesis. *)
+Definition cT : script :=
+  SDo (OAcquire 0) (SDo OSleep0 (STry (SDo (OAcquire 1) SEnd) CCancel SEnd SEnd
+                                       (SDo (ORelease 0) (SDo OSleep0 SEnd)))).
+Definition cO : script :=
+  SDo (OAcquire 1) (SDo OSleep0 (SDo (OAcquire 0) (SDo (ORelease 0) (SDo (ORelease 1) SEnd)))).
+Definition cW : script := SDo (OAcquire 0) (SDo (ORelease 0) SEnd).
+Definition cacts : list action :=
+  map act [XSpawn (SPrio (-5)) cT; XSpawn (SPrio 5) cO; XSpawn (SPrio 3) cW;
+           XStep; XStep; XStep; XStep; XStep; XDo (OCancel 0); XStep; XStep].
+Notation CT := (tr nst0 cacts).
+
+Example cyc_run_ok : run_ok nst0 cacts.
+Proof. vm_compute. repeat split. Qed.
+Example cyc_run_ne : run_ne nst0 cacts.
+Proof. vm_compute. repeat split; intros; discriminate. Qed.
+
+Example cyc_states :
+  arr (lpq (getl (CT 9) 0)) = [mkE (-5)%Q 1 5; mkE 3%Q 0 3] /\
+  arr (lpq (getl (CT 10) 0)) = [mkE 3%Q 0 3; mkE 5%Q 1 5] /\
+  lwt (getl (CT 9) 0) = [(3, 2); (5, 1)] /\ lwt (getl (CT 9) 1) = [(4, 0)] /\
+  lowner (getl (CT 9) 0) = Some 0 /\ lowner (getl (CT 9) 1) = Some 1 /\
+  map (fun t => Qred (wprio (CT 9) t)) [0; 1; 2] = [(-5)%Q; (-5)%Q; 3%Q] /\
+  map (fun t => Qred (wprio (CT 10) t)) [0; 1; 2] = [(-5)%Q; 5%Q; 3%Q] /\
+  map (fun f => fstate_ (getf (CT 9) f)) [3; 4; 5] = [FPending; FCancelled; FPending] /\
+  map (fun f => fstate_ (getf (CT 10) f)) [3; 4; 5] = [FResult 1; FCancelled; FPending].
+Proof. repeat split; vm_compute; reflexivity. Qed.
+
+Example cyc_keyed : keyed (CT 9) 0.
+Proof.
+  intros e He _. destruct cyc_states as (E & _). rewrite E in He.
+  destruct He as [<-|[<-|[]]]; vm_compute; reflexivity.
+Qed.
+
+Example cyc_grant_W : granted_at CT 0 3 9.
+Proof. grant. Qed.
+
+Example cyc_O_waits : waits_at (CT 9) 0 5 1 /\ In 5 (objs (CT 10) 0) /\ fdone (CT 10) 5 = false.
+Proof.
+  split; [split; [exists (mkE (-5)%Q 1 5); split; [vm_compute; tauto|split; reflexivity]|vm_compute; reflexivity]|].
+  split; [vm_compute; tauto|vm_compute; reflexivity].
+Qed.
+
+Example cyc_not_holder_free : ~ holder_free (CT 9) 0.
+Proof.
+  intros H. apply (H 0 1 4).
+  - destruct cyc_states as (_ & _ & _ & _ & E & _). exact E.
+  - destruct cyc_states as (_ & _ & _ & E & _). rewrite E. now left.
+Qed.
+
+(* the conclusion of the key theorem fails for the entries stored in state 9 *)
+Example cyc_keys_fail :
+  In (mkE (-5)%Q 1 5) (arr (lpq (getl (CT 9) 0))) /\ In (mkE 3%Q 0 3) (arr (lpq (getl (CT 9) 0))) /\
+  ~ ((3 < -5)%Q \/ ((3 == -5)%Q /\ (0 < 1)%Z)).
+Proof.
+  destruct cyc_states as (E & _). rewrite E.
+  split; [now left|]. split; [right; now left|].
+  intros [H|[H _]]; vm_compute in H; discriminate.
 Qed.
